@@ -273,6 +273,23 @@ func c13Apply(base *c13Base, m c13Mut) ([]byte, bool) {
 			return nil, false
 		}
 		return []byte(string(b[:st.start]) + repl[m.Arg2] + string(b[st.end:])), true
+	case "gap-from":
+		// every segment from the Arg-th on is marked EXT-X-GAP (it is listed, the server does not have it)
+		lines := strings.Split(string(b), "\n")
+		var out []string
+		k := 0
+		hit := false
+		for _, l := range lines {
+			if strings.HasPrefix(l, "#EXTINF:") {
+				if k >= m.Arg {
+					out = append(out, "#EXT-X-GAP")
+					hit = true
+				}
+				k++
+			}
+			out = append(out, l)
+		}
+		return []byte(strings.Join(out, "\n")), hit
 	case "strip-offset":
 		// the k-th EXT-X-BYTERANGE line (all of them for k < 0) loses its "@offset"
 		lines := strings.Split(string(b), "\n")
@@ -551,6 +568,9 @@ func c13Mutations(base *c13Base, tier string) []c13Mut {
 				for ri, rv := range c13ValueRepl(st.quoted) {
 					out = append(out, c13Mut{Base: base.name, Res: res, Kind: "value", Arg: si, Arg2: ri, Desc: fmt.Sprintf("value %q at byte %d replaced by %q", string(body[st.start:st.end]), st.start, rv)})
 				}
+			}
+			for k := 0; k < strings.Count(string(body), "#EXTINF:"); k++ {
+				out = append(out, c13Mut{Base: base.name, Res: res, Kind: "gap-from", Arg: k, Desc: fmt.Sprintf("segments %d.. marked EXT-X-GAP", k)})
 			}
 			if n := strings.Count(string(body), "#EXT-X-BYTERANGE:"); n > 0 {
 				for k := -1; k < n; k++ {
